@@ -104,7 +104,15 @@ def main(tier, replay=None):
 
     # --- evidence
     kinds, statuses, nt, n_ops = {}, {}, set(), 0
-    removed_then_used = 0
+
+    def incs(snap):
+        # incarnations in the RAM fabric table of a snapshot: "fs=.. F[idx:inc:root:acl ...] KF[..."
+        i = snap.find(" F[")
+        if i < 0:
+            return set()
+        j = snap.find("]", i)
+        return set(x.split(":")[1] for x in snap[i + 3:j].split(" ") if x)
+
     for key, cl in case_by_key.items():
         f = cl.split(" ")
         if f[0] not in ("S", "W") or len(f) < 4:
@@ -114,20 +122,20 @@ def main(tier, replay=None):
         outs = outs[2].split(";") if len(outs) > 2 else []
         gone_fabric = False
         probe = False
+        prev = None
         for o, out in zip(ops, outs):
             n_ops += 1
             st = out.split("@")[0]
             kinds[o[0]] = kinds.get(o[0], 0) + 1
             statuses[o[0] + ":" + st] = statuses.get(o[0] + ":" + st, 0) + 1
-            if st == "ok" and o[0] == "R":
-                gone_fabric = True
-            if st == "ok" and o[0] in "TZV" and " S[" in out:
-                gone_fabric = gone_fabric or True
+            cur = incs(out)
             if gone_fabric and o[0] in "QSBEH":
                 probe = True
+            if prev is not None and (prev - cur):
+                gone_fabric = True       # an incarnation left the fabric table in this step
+            prev = cur
         if gone_fabric and probe:
             nt.add(f[2] + " " + f[3])
-            removed_then_used += 1
     samples = []
     for key, cl in list(case_by_key.items())[1:5]:
         samples.append({"case": cl[:300], "impl": impl.get(key, "")[:500], "model": model.get(key, "")[:500]})
@@ -140,8 +148,8 @@ def main(tier, replay=None):
                 "evaluations = operations whose answer class and full snapshot (fail-safe context, fabric table and persisted fabrics "
                 "with incarnations, session table with mode / fabric index / expired / reserved, resumption cache and its persisted copy, "
                 "subscription table and its persisted copy) are compared with the model; non-trivial = distinct (initial state, sequence) "
-                "in which a fabric disappears (RemoveFabric or an expiry answered OK) and a request, resumption, subscription or session "
-                "establishment is attempted afterwards",
+                "in which an incarnation leaves the fabric table (RemoveFabric, fail-safe rollback, restart before CommissioningComplete) "
+                "and a request, resumption, subscribe or session establishment is attempted afterwards",
         "samples": samples,
         "ops_by_kind": kinds,
         "answers_by_op_and_class": statuses,
